@@ -72,6 +72,8 @@ pub struct Msg {
     pub bytes: Vec<u8>,
     pub payload: Vec<u8>,
     pub fields: Vec<Field>,
+    /// plaintext of the sender's static key when the message carries it encrypted
+    pub s_plain: Option<Vec<u8>>,
 }
 
 pub struct Node {
@@ -233,7 +235,7 @@ pub fn build_snow(
 ) -> Result<Result<HandshakeState, Error>, String> {
     guarded(|| {
         let params: snow::params::NoiseParams = cfg.name.parse()?;
-        let resolver = SimResolver::new(cfg.backend, rng, record, cfg.deny);
+        let resolver = SimResolver::new(cfg.backend, rng, record, cfg.deny).with_evil_static_pub(cfg.evil_static_pub);
         let mut b = Builder::with_resolver(params, Box::new(resolver));
         let mut keys: Vec<(u8, [u8; 32])> = vec![];
         for p in &cfg.psks {
@@ -404,7 +406,14 @@ impl World {
             }
         }
         self.trace.write(build_result.as_bytes());
-        let shadow = if matches!(st, St::Hs(_)) { shadow } else { None };
+        let mut shadow = if matches!(st, St::Hs(_)) { shadow } else { None };
+        if nc.evil_static_pub {
+            if let Some(sh) = shadow.as_mut() {
+                if let Some(kp) = sh.s.as_mut() {
+                    kp.pubk = crate::seam::corrupt_pub(&kp.pubk);
+                }
+            }
+        }
         if matches!(st, St::Hs(_)) && shadow.is_none() && keys_regular {
             // snow built something the model cannot follow: only possible through C12 violation
         }
@@ -1030,6 +1039,7 @@ impl World {
                             bytes: out[..n.min(out.len())].to_vec(),
                             payload: payload.to_vec(),
                             fields: fields.clone(),
+                            s_plain: if fields.iter().any(|f| f.kind == FieldKind::STag) { shadow.s.as_ref().map(|k| k.pubk.clone()) } else { None },
                         });
                         node.written.push(hidx);
                         if Self::peer(i) < self.inbox.len() {
@@ -1252,6 +1262,7 @@ impl World {
                     bytes: out[..n.min(out.len())].to_vec(),
                     payload: payload.to_vec(),
                     fields,
+                    s_plain: None,
                 });
                 node.written.push(hidx);
                 if Self::peer(i) < self.inbox.len() {
@@ -1539,16 +1550,10 @@ impl World {
                     self.flag(&["C07", "C11"], "observables-changed-by-failed-read", &site, &format!("{e:?}: turn {}->{} fin {}->{} hash_changed={}", before.0, after.0, before.1, after.1, before.3 != after.3));
                 }
                 if shadow.next_has_s() && state_ok {
-                    if !node.rs_suspended {
-                        node.rs_allowed.clear();
-                        node.rs_allowed.push(shadow.rs.clone());
-                    }
+                    // a failed read is a no-op: the reported key is what it was before the call
+                    node.rs_allowed.clear();
+                    node.rs_allowed.push(shadow.rs.clone());
                     node.rs_suspended = true;
-                    // `model` ran the same read: if the 's' field decrypted authentically
-                    // before the failure, its rs holds that key
-                    if !node.rs_allowed.contains(&model.rs) {
-                        node.rs_allowed.push(model.rs.clone());
-                    }
                 }
                 if whys.is_empty() {
                     let mut props = vec!["C02", "C01"];
@@ -1581,6 +1586,10 @@ impl World {
                     // C19: a message that failed authentication must not leave plaintext behind
                     if whys.contains(&Why::Crypto) {
                         if let Some(m) = meta {
+                            let s_leak = m.s_plain.as_ref().map_or(false, |sp| out.len() >= sp.len() && out.windows(sp.len().min(32)).any(|w| w == &sp[..sp.len().min(32)]));
+                            if s_leak {
+                                self.flag(&["C19"], "static-key-plaintext-in-buffer-after-reject", &format!("hs/{}/{}", shadow.proto.cipher.name(), backend_name(self.cfg.nodes[i].backend)), &format!("out={outlen} msg={}", bytes.len()));
+                            }
                             if model_payload_enc(&m.fields) && leak_check(&out, &m.payload) {
                                 self.flag(&["C19"], "plaintext-in-buffer-after-reject", &format!("hs/{}/{}", shadow.proto.cipher.name(), backend_name(self.cfg.nodes[i].backend)), &format!("out={outlen} msg={} payload={}", bytes.len(), m.payload.len()));
                             } else if m.payload.len() >= 8 {
